@@ -419,9 +419,11 @@ def mon_c03_adders(im, p):
               'list-subclass': lambda n: _L(range(n)), 'dict-subclass': lambda n: _D((str(i), i) for i in range(n)),
               'OrderedDict': lambda n: collections.OrderedDict((str(i), i) for i in range(n)),
               'defaultdict': lambda n: collections.defaultdict(int, ((str(i), i) for i in range(n))),
+              'dict-intkeys': lambda n: {i: i for i in range(n)}, 'dict-boolkeys': lambda n: {(i if i > 1 else bool(i)): i for i in range(n)},
               'dict-of-lists': lambda n: {str(i): [i] for i in range(n)}, 'list-of-lists': lambda n: [[i] for i in range(n)]}
     for n in (9998, 9999, 10000, 10001):
-        for kind0 in ('list', 'dict', 'list-subclass', 'dict-subclass', 'OrderedDict', 'defaultdict', 'dict-of-lists', 'list-of-lists'):
+        for kind0 in ('list', 'dict', 'list-subclass', 'dict-subclass', 'OrderedDict', 'defaultdict', 'dict-of-lists', 'list-of-lists',
+                      'dict-intkeys', 'dict-boolkeys'):
             if kind0 not in ('list', 'dict') and n not in (10000, 10001):
                 continue
             kind = 'list' if kind0.startswith('list') else 'dict'
@@ -481,6 +483,43 @@ def mon_c04(im, p):
                 break
         # leave the thread's context as it was found: the next payload must not inherit it
         decimal.getcontext().prec = 28
+        return {'fail': fails, 'nontrivial': True}
+    if 'typed_seq' in p:
+        # the SAME source evaluated again and again by one caching parser (and the same lambda applied again inside one evaluation)
+        # with operands of other host types each time: whatever a node remembers about the operands it saw first, every
+        # result of * / ** / *= is a Decimal of at most 28 digits or the evaluation fails, and no string or list is repeated
+        fails = []
+        HV = {'i3': 3, 'big': 10 ** 30, 's': 'ab', 'l': [1, 2], 'd2': D(2), 'd3': D(3), 'f': 2.5, 't': True, 'bigd': D(10) ** 30 + 1}
+        imc = sqimpl.Impl(ns, parse_cache={})
+        for j, (src, binds) in enumerate(p['typed_seq']):
+            names = {k: copy.deepcopy(HV[v]) for k, v in binds.items()}
+            try:
+                r = imc.p.eval(src, names, max_ops_evaluated=1000)
+            except Exception:
+                continue
+            vals = [r] + [names[k] for k in sorted(names)]
+            for x in vals:
+                bad = None
+                if isinstance(x, (str, list)) and x and x in ('ab' * 3, 'ab' * 2, [1, 2] * 3, [1, 2] * 2):
+                    bad = f'repeated a {type(x).__name__}'
+                elif isinstance(x, int) and not isinstance(x, bool) and x > 10 ** 31:
+                    bad = f'returned a Python int of {digits_of(x)} digits'
+                elif isinstance(x, decimal.Decimal) and digits_of(x) > 28 and x != HV['bigd']:
+                    bad = f'returned {digits_of(x)} significant digits'
+                elif isinstance(x, list):
+                    for y in x:
+                        if isinstance(y, (str, list)) and y in ('ab' * 3, 'ab' * 2, [1, 2] * 3, [1, 2] * 2):
+                            bad = f'repeated a {type(y).__name__}'
+                        elif isinstance(y, int) and not isinstance(y, bool) and y > 10 ** 31:
+                            bad = f'returned a Python int of {digits_of(y)} digits'
+                        elif isinstance(y, decimal.Decimal) and digits_of(y) > 28 and y != HV['bigd']:
+                            bad = f'returned {digits_of(y)} significant digits'
+                if bad:
+                    fails.append({'signature': 'mul-after-other-types', 'what': f'call #{j} {src!r} with {binds!r} (after {p["typed_seq"][:j]!r} on '
+                                  f'the same caching parser) {bad}', 'input': p})
+                    break
+            if fails:
+                break
         return {'fail': fails, 'nontrivial': True}
     if 'ctxprec' in p:
         # a parser CONSTRUCTED while the host's thread is temporarily at another decimal precision, used afterwards at the
@@ -952,6 +991,13 @@ def mon_c10(im, p):
     for k in info['names']:
         if k not in names0 and k not in top and k not in astkeys:
             fails.append({'signature': 'scope-leak', 'what': f'name {k!r} appeared in the host mapping after {src[:100]!r} although it is not assigned at top level', 'input': p})
+    # a run that returns normally leaves every name its top-level statements assign bound in the host mapping
+    if out.startswith('ok'):
+        for k in p.get('must_bind', []):
+            if k not in info['names']:
+                fails.append({'signature': 'top-level-binding-missing', 'what': f'{k!r} is assigned at top level by {src[:120]!r} but is not in the host '
+                              f'mapping {sorted(map(str, info["names"]))} afterwards', 'input': p})
+                break
     # a host binding that no top-level statement assigns keeps its value: assignments / compound assignments made inside
     # lambda calls (also the multi-line ones supplied through ast_names) must not reach it
     scalar = lambda v: v is None or isinstance(v, (bool, int, str, decimal.Decimal))
